@@ -235,6 +235,18 @@ func TestGovcReplayJoin(t *testing.T) {
 			}
 		}
 	}
+	// fewer facts than body predicates: a self-join can still match
+	{
+		fs := FactSet{{Predicate{Name: edge, Terms: []Term{Integer(1), Integer(1)}}}}
+		r := rules[2]
+		want := govcRefApply(r, fs)
+		got := &FactSet{}
+		if err := r.Apply(&fs, got, &SymbolTable{}); err != nil || len(*got) != len(want) {
+			fmt.Printf("REPRODUCED: rule out($x,$z) <- edge($x,$y), edge($y,$z) over the single fact edge(1,1) derives %d facts (err=%v), the reference derives %v\n", len(*got), err, want)
+			t.Fail()
+			return
+		}
+	}
 	fmt.Println("NOT-REPRODUCED: rule application agrees with the brute-force reference on the join corpus")
 }
 
